@@ -960,4 +960,33 @@ theorem stream_small (data : Bytes) (fuel : Nat) (rd : Reader) (h : RInv rd data
         | ub => simp only at hk
         | fuel => simp only at hk
 
+/-! ### the documented buffer size always fits -/
+
+/-- the documented minimal buffer (`usize::from(u16::MAX) + 4`) fits every input -/
+theorem fits_of_large (cap : Nat) (hcap : 65539 ≤ cap) (d : Bytes) : Fits cap d := by
+  suffices h : ∀ n (d : Bytes), d.length ≤ n → Fits cap d from h d.length d (Nat.le_refl _)
+  intro n
+  induction n with
+  | zero =>
+    intro d hd
+    refine Fits.mk d ?_ ?_
+    · intro k hk he
+      have := readToken_eofBound _ he
+      simp at this; omega
+    · intro t r hrt
+      have : d = [] := List.eq_nil_of_length_eq_zero (by omega)
+      subst this
+      simp [readToken_nil] at hrt
+  | succ n ih =>
+    intro d hd
+    refine Fits.mk d ?_ ?_
+    · intro k hk he
+      have := readToken_eofBound _ he
+      simp at this; omega
+    · intro t r hrt
+      obtain ⟨pre, hpre, hlen⟩ := readToken_consumes _ _ _ hrt
+      apply ih
+      have : d.length = pre.length + r.length := by rw [hpre]; simp
+      omega
+
 end Jomini.BinReader
